@@ -82,6 +82,7 @@ Definition PInv (cur keep subs : list jobid) (jl : list link) (b : option (list 
   | Inside sub linked => common cur subs jl sub linked
   | ExitRm sub linked => common cur subs jl sub linked /\ incl keep (names jl)
   | ExitWait sub linked => common cur subs jl sub linked /\ incl keep (names jl) /\ b = None
+  | ExitFin _ _ => False       (* never reached by the code as it is *)
   end.
 
 Definition Inv (tr : list event) (s : st) : Prop :=
@@ -133,7 +134,7 @@ Qed.
 Lemma step_inv tr s e s' : Inv tr s -> step s e = Some s' -> Inv (tr ++ [e]) s'.
 Proof.
   intros HI HS. pose proof HI as (HT & HK & HN1 & HN2 & HL).
-  destruct e as [p|p|p n|p|p j|p j|p|p n|p|p|p c|p|j|j]; simpl in HS.
+  destruct e as [p|p|p n|p|p j|p j|p|p n|p|p|p c|p|p|p|j|j]; simpl in HS.
   - (* Lock *)
     destruct (lock s) eqn:L; [discriminate|]. destruct (ph s p) eqn:P; try discriminate. inv_some HS.
     unfold Inv; simpl. rewrite kept_snoc, ghost_snoc, subs_snoc; simpl. rewrite Nat.eqb_refl.
@@ -297,6 +298,15 @@ Proof.
     unfold Inv; simpl. unfold bakl; simpl. fold (bakl s). rewrite kept_snoc, ghost_snoc; simpl. fold (kept tr). rewrite L, release_self.
     repeat split; auto.
     intros q. destruct (Nat.eq_dec q p) as [->|N]; [apply upd_eq | rewrite upd_neq by exact N; auto].
+  - (* WaitFail *)
+    destruct (ph s p) eqn:P; try discriminate. inv_some HS.
+    assert (HO : is_out (ph s p) = false) by (rewrite P; reflexivity).
+    destruct (holder_is _ _ _ HI HO) as (L & HQ & HP).
+    unfold Inv; simpl. unfold bakl; simpl. fold (bakl s). rewrite kept_snoc, ghost_snoc; simpl. fold (kept tr). rewrite L, release_self.
+    repeat split; auto.
+    intros q. destruct (Nat.eq_dec q p) as [->|N]; [apply upd_eq | rewrite upd_neq by exact N; auto].
+  - (* WaitOk: not a step of the code as it is *)
+    discriminate.
   - (* MkJobDir *)
     inv_some HS. unfold Inv; simpl. unfold bakl; simpl. fold (bakl s). rewrite kept_snoc, ghost_snoc; simpl. fold (kept tr).
     repeat split; auto. destruct (lock s); auto. rewrite subs_snoc; simpl. auto.
@@ -370,7 +380,7 @@ Theorem only_ok_exit_forgets : forall s e s', step s e = Some s' ->
   incl (names (jobs s) ++ names (bakl s)) (names (jobs s') ++ names (bakl s')).
 Proof.
   intros s e s' HS HE.
-  destruct e as [p|p|p n|p|p j|p j|p|p n|p|p|p c|p|j|j]; simpl in HS.
+  destruct e as [p|p|p n|p|p j|p j|p|p n|p|p|p c|p|p|p|j|j]; simpl in HS.
   - destruct (lock s); [discriminate|]. destruct (ph s p); try discriminate. inv_some HS. apply incl_refl.
   - destruct (ph s p); try discriminate. inv_some HS. unfold bakl at 2. simpl. apply incl_refl.
   - destruct (ph s p); try discriminate. destruct (bak s) as [b|] eqn:B; try discriminate.
@@ -396,6 +406,8 @@ Proof.
     inv_some HS. apply incl_refl.
   - destruct (ph s p); try discriminate. inv_some HS. apply incl_refl.
   - destruct (is_out (ph s p)); try discriminate. inv_some HS. apply incl_refl.
+  - destruct (ph s p); try discriminate. inv_some HS. apply incl_refl.
+  - discriminate.
   - inv_some HS. apply incl_refl.
   - inv_some HS. apply incl_refl.
 Qed.
@@ -414,7 +426,7 @@ Proof.
   intros tr s p H. apply run_inv in H. split.
   - intros Hp. apply (holder_is _ _ _ H Hp).
   - intros L. destruct H as (_ & _ & _ & _ & HL). rewrite L in HL. destruct HL as [_ HP].
-    destruct (ph s p); simpl in *; auto. contradiction.
+    destruct (ph s p); simpl in *; auto; contradiction.
 Qed.
 
 Theorem enter_needs_free_lock : forall s p s', step s (Lock p) = Some s' -> lock s = None /\ lock s' = Some p.
@@ -433,7 +445,7 @@ Proof.
   intros tr s e s' H HS HC. apply run_inv in H.
   assert (HA : forall p, actor e = Some p -> is_out (ph s p) = false -> exists p, actor e = Some p /\ lock s = Some p).
   { intros p A O. exists p. split; [exact A|]. apply (holder_is _ _ _ H O). }
-  destruct e as [p|p|p n|p|p j|p j|p|p n|p|p|p c|p|j|j]; simpl in HS.
+  destruct e as [p|p|p n|p|p j|p j|p|p n|p|p|p c|p|p|p|j|j]; simpl in HS.
   - destruct (lock s); [discriminate|]. destruct (ph s p); try discriminate. injection HS as <-. simpl in HC. tauto.
   - destruct (ph s p) eqn:P; try discriminate. apply (HA p); auto. rewrite P; reflexivity.
   - destruct (ph s p) eqn:P; try discriminate. apply (HA p); auto. rewrite P; reflexivity.
@@ -446,6 +458,8 @@ Proof.
   - destruct (ph s p) eqn:P; try discriminate. apply (HA p); auto. rewrite P; reflexivity.
   - destruct (ph s p) eqn:P; try discriminate. apply (HA p); auto. rewrite P; reflexivity.
   - destruct (is_out (ph s p)) eqn:P; try discriminate. apply (HA p); auto.
+  - destruct (ph s p) eqn:P; try discriminate. apply (HA p); auto. rewrite P; reflexivity.
+  - discriminate.
   - injection HS as <-. simpl in HC. tauto.
   - injection HS as <-. simpl in HC. tauto.
 Qed.
@@ -520,7 +534,7 @@ Qed.
 Lemma step_binv tr s e s' : Inv tr s -> BInv s -> step s e = Some s' -> BInv s'.
 Proof.
   intros HI HB HS.
-  destruct e as [p|p|p n|p|p j|p j|p|p n|p|p|p c|p|j|j]; simpl in HS.
+  destruct e as [p|p|p n|p|p j|p j|p|p n|p|p|p c|p|p|p|j|j]; simpl in HS.
   - destruct (lock s); [discriminate|]. destruct (ph s p); try discriminate. inv_some HS.
     unfold BInv; simpl. apply binv_upd_other; [exact HB | exact I].
   - destruct (ph s p); try discriminate. inv_some HS. unfold BInv; simpl.
@@ -555,6 +569,9 @@ Proof.
     unfold BInv; simpl. apply binv_upd_other; [exact HB | exact I].
   - destruct (is_out (ph s p)); try discriminate. inv_some HS.
     unfold BInv; simpl. apply binv_upd_other; [exact HB | exact I].
+  - destruct (ph s p); try discriminate. inv_some HS.
+    unfold BInv; simpl. apply binv_upd_other; [exact HB | exact I].
+  - discriminate.
   - inv_some HS. exact HB.
   - inv_some HS. exact HB.
 Qed.
@@ -611,6 +628,377 @@ Proof. eexists. split; [vm_compute; reflexivity|]. vm_compute. repeat split. Qed
 Example ex_raise_keeps : exists s s', run init (firstn 16 tr_sysexit) = Some s /\
   step s (EndExc 1%nat ExcExit) = Some s' /\ step s (EndExc 1%nat ExcError) = Some s' /\ bak s' = Some [(1, 1)].
 Proof. eexists. eexists. split; [vm_compute; reflexivity|]. repeat split. Qed.
+
+(* ------------------------------------------------------------------ "completed" = wait() returned *)
+(* (8) With "last completed plan" read as "last run whose wait() returned" (kept_w), the code as it is
+   does NOT keep what it must: __exit__ removes the backup before wait().  Run A completes {1}; run B
+   moves 1 to the backup, links 2, its block ends, rmtree(jobs.bak), then B is killed while waiting for
+   its jobs (or wait() raises): job 1 - of the last plan that ever completed - is in no index and is
+   reported as an orphan.  Found by the audit (Audit_C16.au_killed_in_exit_forgets_everything);
+   reproduced on the implementation by the harness (key C16:backup-dropped-before-wait).          *)
+Definition tr_killed_waiting : list event :=
+  [ MkJobDir 1; MkJobDir 2;
+    Lock 0%nat; MkBak 0%nat; Ready 0%nat; Submit 0%nat 1; Link 0%nat 1; EndOk 0%nat; RmBakDir 0%nat; Done 0%nat;
+    Lock 1%nat; MkBak 1%nat; Move 1%nat 1; Ready 1%nat; Submit 1%nat 2; Link 1%nat 2; EndOk 1%nat;
+    RmEntry 1%nat 1; RmBakDir 1%nat; Kill 1%nat ].
+
+Theorem wait_based_keep_refuted : exists tr s,
+  run init tr = Some s /\ ~ incl (kept_w tr) (names (jobs s) ++ names (bakl s)) /\ In 1 (orphans s).
+Proof.
+  exists tr_killed_waiting. eexists. split; [vm_compute; reflexivity|]. split.
+  - intros H. assert (X : In 1 (kept_w tr_killed_waiting)) by (vm_compute; right; left; reflexivity).
+    apply H in X. vm_compute in X. destruct X as [X|[]]. discriminate X.
+  - vm_compute. left. reflexivity.
+Qed.
+
+(* the same with wait() raising instead of the process being killed *)
+Example ex_wait_fails_forgets : exists s,
+  run init (firstn 19 tr_killed_waiting ++ [WaitFail 1%nat]) = Some s /\
+  kept_w (firstn 19 tr_killed_waiting ++ [WaitFail 1%nat]) = [2; 1] /\ names (jobs s) = [2] /\ bak s = None /\
+  orphans s = [1] /\ lock s = None.
+Proof. eexists. split; [vm_compute; reflexivity|]. vm_compute. repeat split. Qed.
+
+(* (9) the repaired order (step_late: wait() first, rmtree after): the invariant with kept_w *)
+Lemma runl_snoc s tr e : run_late s (tr ++ [e]) = ostep_late (run_late s tr) e.
+Proof. unfold run_late. rewrite fold_left_app. reflexivity. Qed.
+Lemma ghostw_snoc tr e : ghostw (tr ++ [e]) = keepw_step (ghostw tr) e.
+Proof. unfold ghostw. rewrite fold_left_app. reflexivity. Qed.
+Lemma keptw_snoc tr e : kept_w (tr ++ [e]) = snd (keepw_step (ghostw tr) e).
+Proof. unfold kept_w. rewrite ghostw_snoc. reflexivity. Qed.
+
+Definition PInvL (cur keep subs : list jobid) (jl : list link) (b : option (list link)) (f : phase) : Prop :=
+  match f with
+  | Out => False
+  | Locked | Moving => cur = [] /\ subs = []
+  | Inside sub linked => common cur subs jl sub linked
+  | ExitWait sub linked => common cur subs jl sub linked
+  | ExitRm sub linked => common cur subs jl sub linked /\ incl keep (names jl) /\ incl sub linked
+  | ExitFin sub linked => common cur subs jl sub linked /\ incl keep (names jl) /\ incl sub linked /\ b = None
+  end.
+
+Definition InvL (tr : list event) (s : st) : Prop :=
+  (forall l, In l (jobs s ++ bakl s) -> snd l = dir_of (fst l)) /\
+  incl (kept_w tr) (names (jobs s) ++ names (bakl s)) /\
+  NoDup (names (jobs s)) /\ NoDup (names (bakl s)) /\
+  match lock s with
+  | None => forall p, ph s p = Out
+  | Some p => (forall q, q <> p -> ph s q = Out) /\
+              PInvL (fst (ghostw tr)) (kept_w tr) (subs_of p tr) (jobs s) (bak s) (ph s p)
+  end.
+
+Lemma invl_init : InvL [] init.
+Proof.
+  unfold InvL, init; simpl. repeat split; auto; try constructor.
+  - intros l [].
+  - intros x [].
+Qed.
+
+Lemma holder_isL tr s p : InvL tr s -> is_out (ph s p) = false ->
+  lock s = Some p /\ (forall q, q <> p -> ph s q = Out) /\
+  PInvL (fst (ghostw tr)) (kept_w tr) (subs_of p tr) (jobs s) (bak s) (ph s p).
+Proof.
+  intros (_ & _ & _ & _ & HL) HO. destruct (lock s) as [h|].
+  - destruct HL as [HQ HP]. destruct (Nat.eq_dec p h) as [->|N].
+    + auto.
+    + rewrite (HQ p N) in HO. discriminate.
+  - rewrite HL in HO. discriminate.
+Qed.
+
+Lemma step_late_inv tr s e s' : InvL tr s -> step_late s e = Some s' -> InvL (tr ++ [e]) s'.
+Proof.
+  intros HI HS. pose proof HI as (HT & HK & HN1 & HN2 & HL).
+  destruct e as [p|p|p n|p|p j|p j|p|p n|p|p|p c|p|p|p|j|j]; simpl in HS.
+  - (* Lock *)
+    destruct (lock s) eqn:L; [discriminate|]. destruct (ph s p) eqn:P; try discriminate. inv_some HS.
+    unfold InvL; simpl. rewrite keptw_snoc, ghostw_snoc, subs_snoc; simpl. rewrite Nat.eqb_refl.
+    repeat split; auto.
+    + intros q N. rewrite upd_neq by exact N. apply HL.
+    + rewrite upd_eq. simpl. auto.
+  - (* MkBak *)
+    destruct (ph s p) eqn:P; try discriminate. inv_some HS.
+    assert (HO : is_out (ph s p) = false) by (rewrite P; reflexivity).
+    destruct (holder_isL _ _ _ HI HO) as (L & HQ & HP). rewrite P in HP. simpl in HP. destruct HP as [HP1 HP2].
+    unfold InvL; simpl. unfold bakl at 1 2 3; simpl. fold (bakl s). rewrite keptw_snoc, ghostw_snoc; simpl. fold (kept_w tr). rewrite L.
+    rewrite subs_snoc; simpl.
+    repeat split; auto.
+    + intros q N. rewrite upd_neq by exact N. auto.
+    + rewrite upd_eq. simpl. auto.
+  - (* Move *)
+    destruct (ph s p) eqn:P; try discriminate. destruct (bak s) as [b|] eqn:B; try discriminate.
+    destruct (find_link n (jobs s)) as [l|] eqn:F; try discriminate.
+    assert (HO : is_out (ph s p) = false) by (rewrite P; reflexivity).
+    destruct (holder_isL _ _ _ HI HO) as (L & HQ & HP). rewrite P in HP. simpl in HP. destruct HP as [HP1 HP2].
+    apply find_link_some in F. destruct F as [Fin Ffst].
+    assert (Hb : bakl s = b) by (unfold bakl; rewrite B; reflexivity). rewrite Hb in *.
+    destruct (has n b) eqn:Hh; inv_some HS; unfold InvL; simpl; unfold bakl; simpl;
+      rewrite keptw_snoc, ghostw_snoc; simpl; fold (kept_w tr); rewrite L, subs_snoc; simpl; rewrite P.
+    + repeat split; auto.
+      * intros x Hx. apply HT. apply in_app_or in Hx. apply in_or_app. destruct Hx as [Hx|Hx]; [|auto].
+        apply in_unlink in Hx. tauto.
+      * apply unlink_keep_all; [exact HK|]. apply has_iff. exact Hh.
+      * apply nodup_names_unlink. exact HN1.
+    + repeat split; auto.
+      * intros x Hx. apply HT. apply in_app_or in Hx. apply in_or_app. destruct Hx as [Hx|Hx].
+        -- apply in_unlink in Hx. tauto.
+        -- destruct Hx as [<-|Hx]; auto.
+      * apply (unlink_keep_all n (jobs s) (l :: b)).
+        -- intros x Hx. specialize (HK x Hx). apply in_app_or in HK. apply in_or_app. simpl. tauto.
+        -- simpl. auto.
+      * apply nodup_names_unlink. exact HN1.
+      * simpl. constructor; [|exact HN2]. rewrite Ffst. apply has_false. exact Hh.
+  - (* Ready *)
+    destruct (ph s p) eqn:P; try discriminate. destruct (isnil (jobs s)) eqn:E; try discriminate. inv_some HS.
+    assert (HO : is_out (ph s p) = false) by (rewrite P; reflexivity).
+    destruct (holder_isL _ _ _ HI HO) as (L & HQ & HP). rewrite P in HP. simpl in HP. destruct HP as [HC HSb].
+    unfold InvL; simpl. unfold bakl; simpl. fold (bakl s). rewrite keptw_snoc, ghostw_snoc; simpl. fold (kept_w tr). rewrite L, subs_snoc; simpl.
+    repeat split; auto.
+    + intros q N. rewrite upd_neq by exact N. auto.
+    + rewrite upd_eq. simpl. rewrite HC, HSb. destruct (jobs s); [|discriminate].
+      unfold common, same_set; simpl. repeat split; apply incl_refl.
+  - (* Submit *)
+    destruct (ph s p) eqn:P; try discriminate. inv_some HS.
+    assert (HO : is_out (ph s p) = false) by (rewrite P; reflexivity).
+    destruct (holder_isL _ _ _ HI HO) as (L & HQ & HP). rewrite P in HP. simpl in HP.
+    destruct HP as ((S1 & S2) & HLs & (J1 & J2) & HC).
+    unfold InvL; simpl. unfold bakl; simpl. fold (bakl s). rewrite keptw_snoc, ghostw_snoc; simpl. fold (kept_w tr). rewrite L, subs_snoc; simpl.
+    rewrite Nat.eqb_refl.
+    repeat split; auto.
+    + intros q N. rewrite upd_neq by exact N. auto.
+    + rewrite upd_eq. simpl. unfold common, same_set. destruct (memz j sub) eqn:M.
+      * apply memz_iff in M. repeat split; auto.
+        -- intros x [<-|Hx]; auto.
+        -- intros x Hx. right. auto.
+      * repeat split; auto.
+        -- intros x [<-|Hx]; [left; auto | right; auto].
+        -- intros x [<-|Hx]; [left; auto | right; auto].
+        -- intros x Hx. right. auto.
+  - (* Link *)
+    assert (HLink : forall s'' sub linked (mkp : list jobid -> list jobid -> phase),
+      (forall a b, is_out (mkp a b) = false) ->
+      ph s p = mkp sub linked -> memz j sub = true ->
+      s'' = mk (do_link j (jobs s)) (bak s) (lock s) (upd (ph s) p (mkp sub (j :: linked))) (dirs s) ->
+      (forall cur keep subs jl b, PInvL cur keep subs jl b (mkp sub linked) ->
+         common cur subs jl sub linked /\
+         (common (j :: cur) subs (do_link j jl) sub (j :: linked) ->
+          (incl keep (names jl) -> incl (j :: keep) (names (do_link j jl))) ->
+          PInvL (j :: cur) (j :: keep) subs (do_link j jl) b (mkp sub (j :: linked)))) ->
+      InvL (tr ++ [Link p j]) s'').
+    { intros s'' sub linked mkp Hout P M -> HPI.
+      assert (HO : is_out (ph s p) = false) by (rewrite P; apply Hout).
+      destruct (holder_isL _ _ _ HI HO) as (L & HQ & HP). rewrite P in HP.
+      destruct (HPI _ _ _ _ _ HP) as (HCm & Hback).
+      destruct HCm as ((S1 & S2) & HLs & (J1 & J2) & HC).
+      apply memz_iff in M.
+      assert (HJ1 : incl (names (do_link j (jobs s))) (j :: linked)).
+      { intros x Hx. simpl in Hx. destruct Hx as [<-|Hx]; [left; auto|]. apply in_names_unlink in Hx. right. apply J1. tauto. }
+      assert (HJ2 : incl (j :: linked) (names (do_link j (jobs s)))).
+      { intros x [<-|Hx]; simpl; [left; auto|]. destruct (Z.eq_dec j x) as [->|N]; [left; auto|].
+        right. apply in_names_unlink. split; [apply J2; exact Hx | auto]. }
+      unfold InvL; simpl. unfold bakl; simpl. fold (bakl s). rewrite keptw_snoc, ghostw_snoc; simpl. fold (kept_w tr). rewrite L, subs_snoc; simpl.
+      split; [|split; [|split; [|split; [exact HN2|split]]]].
+      + intros x [<-|Hx]; [reflexivity|]. apply HT. apply in_app_or in Hx. apply in_or_app.
+        destruct Hx as [Hx|Hx]; [|auto]. apply in_unlink in Hx. tauto.
+      + intros x [<-|Hx]; [left; reflexivity|]. specialize (HK x Hx). apply in_app_or in HK.
+        destruct HK as [HK|HK].
+        * destruct (Z.eq_dec j x) as [->|N]; [left; reflexivity|]. right. apply in_or_app. left.
+          apply in_names_unlink. auto.
+        * right. apply in_or_app. right. exact HK.
+      + constructor; [|apply nodup_names_unlink; exact HN1]. intro C. apply in_names_unlink in C. tauto.
+      + intros q N. rewrite upd_neq by exact N. auto.
+      + rewrite upd_eq. apply Hback.
+        * unfold common, same_set. repeat split; auto.
+          -- intros x [<-|Hx]; auto.
+          -- intros x [<-|Hx]; [left; auto | right; auto].
+        * intros Hkeep x [<-|Hx]; [left; reflexivity|]. simpl. destruct (Z.eq_dec j x) as [->|N]; [left; reflexivity|].
+          right. apply in_names_unlink. auto. }
+    destruct (ph s p) eqn:P; try discriminate; destruct (memz j sub) eqn:M; try discriminate; inv_some HS.
+    + apply (HLink _ sub linked Inside); auto; intros cur keep subs jl b H; simpl in *; tauto.
+    + apply (HLink _ sub linked ExitRm); auto. intros cur keep subs jl b H; simpl in *.
+      destruct H as (H1 & H2 & H3). split; [exact H1|]. intros C K.
+      split; [exact C | split; [apply K; exact H2 | apply incl_tl; exact H3]].
+    + apply (HLink _ sub linked ExitWait); auto; intros cur keep subs jl b H; simpl in *; tauto.
+  - (* EndOk: the block ended, __exit__ starts waiting; nothing is forgotten yet *)
+    destruct (ph s p) eqn:P; try discriminate. inv_some HS.
+    assert (HO : is_out (ph s p) = false) by (rewrite P; reflexivity).
+    destruct (holder_isL _ _ _ HI HO) as (L & HQ & HP). rewrite P in HP. simpl in HP.
+    unfold InvL; simpl. unfold bakl; simpl. fold (bakl s). rewrite keptw_snoc, ghostw_snoc; simpl. fold (kept_w tr). rewrite L, subs_snoc; simpl.
+    repeat split; auto.
+    + intros q N. rewrite upd_neq by exact N. auto.
+    + rewrite upd_eq. simpl. exact HP.
+  - (* RmEntry *)
+    destruct (ph s p) eqn:P; try discriminate. destruct (bak s) as [b|] eqn:B; try discriminate.
+    destruct (has n b) eqn:Hh; try discriminate. inv_some HS.
+    assert (HO : is_out (ph s p) = false) by (rewrite P; reflexivity).
+    destruct (holder_isL _ _ _ HI HO) as (L & HQ & HP). rewrite P in HP. simpl in HP. destruct HP as (HCm & HKJ & HSL). pose proof HCm as ((S1 & S2) & HLs & (J1 & J2) & HC).
+    assert (Hb : bakl s = b) by (unfold bakl; rewrite B; reflexivity). rewrite Hb in *.
+    unfold InvL; simpl. unfold bakl; simpl. rewrite keptw_snoc, ghostw_snoc; simpl. fold (kept_w tr). rewrite L, subs_snoc; simpl. rewrite P.
+    repeat split; auto.
+    + intros x Hx. apply HT. apply in_app_or in Hx. apply in_or_app. destruct Hx as [Hx|Hx]; [auto|].
+      apply in_unlink in Hx. tauto.
+    + apply incl_app_l. exact HKJ.
+    + apply nodup_names_unlink. exact HN2.
+  - (* RmBakDir *)
+    destruct (ph s p) eqn:P; try discriminate.
+    assert (HO : is_out (ph s p) = false) by (rewrite P; reflexivity).
+    destruct (holder_isL _ _ _ HI HO) as (L & HQ & HP). rewrite P in HP. simpl in HP. destruct HP as (HCm & HKJ & HSL). pose proof HCm as ((S1 & S2) & HLs & (J1 & J2) & HC).
+    assert (s' = mk (jobs s) None (lock s) (upd (ph s) p (ExitFin sub linked)) (dirs s)) as ->.
+    { destruct (bak s) as [[|x b]|]; try discriminate; inv_some HS; reflexivity. }
+    unfold InvL; simpl. unfold bakl; simpl. rewrite keptw_snoc, ghostw_snoc; simpl. fold (kept_w tr). rewrite L, subs_snoc; simpl.
+    repeat split; auto.
+    + intros x Hx. apply HT. rewrite app_nil_r in Hx. apply in_or_app. auto.
+    + rewrite app_nil_r. exact HKJ.
+    + constructor.
+    + intros q N. rewrite upd_neq by exact N. auto.
+    + rewrite upd_eq. simpl. auto.
+  - (* Done: the finally-clause releases the lock; this run's links are what must be kept from now on *)
+    destruct (ph s p) eqn:P; try discriminate. inv_some HS.
+    assert (HO : is_out (ph s p) = false) by (rewrite P; reflexivity).
+    destruct (holder_isL _ _ _ HI HO) as (L & HQ & HP). rewrite P in HP. simpl in HP.
+    destruct HP as (((S1 & S2) & HLs & (J1 & J2) & HC) & HKJ & HSL & HB).
+    unfold InvL; simpl. unfold bakl; simpl. fold (bakl s). rewrite keptw_snoc, ghostw_snoc; simpl. rewrite L, release_self.
+    repeat split; auto.
+    + apply incl_app_l. intros x Hx. apply J2, HC, Hx.
+    + intros q. destruct (Nat.eq_dec q p) as [->|N]; [apply upd_eq | rewrite upd_neq by exact N; auto].
+  - (* EndExc *)
+    destruct (ph s p) eqn:P; try discriminate. inv_some HS.
+    assert (HO : is_out (ph s p) = false) by (rewrite P; reflexivity).
+    destruct (holder_isL _ _ _ HI HO) as (L & HQ & HP).
+    unfold InvL; simpl. unfold bakl; simpl. fold (bakl s). rewrite keptw_snoc, ghostw_snoc; simpl. fold (kept_w tr). rewrite L, release_self.
+    repeat split; auto.
+    intros q. destruct (Nat.eq_dec q p) as [->|N]; [apply upd_eq | rewrite upd_neq by exact N; auto].
+  - (* Kill *)
+    destruct (is_out (ph s p)) eqn:HO; try discriminate. inv_some HS.
+    destruct (holder_isL _ _ _ HI HO) as (L & HQ & HP).
+    unfold InvL; simpl. unfold bakl; simpl. fold (bakl s). rewrite keptw_snoc, ghostw_snoc; simpl. fold (kept_w tr). rewrite L, release_self.
+    repeat split; auto.
+    intros q. destruct (Nat.eq_dec q p) as [->|N]; [apply upd_eq | rewrite upd_neq by exact N; auto].
+  - (* WaitFail *)
+    destruct (ph s p) eqn:P; try discriminate. inv_some HS.
+    assert (HO : is_out (ph s p) = false) by (rewrite P; reflexivity).
+    destruct (holder_isL _ _ _ HI HO) as (L & HQ & HP).
+    unfold InvL; simpl. unfold bakl; simpl. fold (bakl s). rewrite keptw_snoc, ghostw_snoc; simpl. fold (kept_w tr). rewrite L, release_self.
+    repeat split; auto.
+    intros q. destruct (Nat.eq_dec q p) as [->|N]; [apply upd_eq | rewrite upd_neq by exact N; auto].
+  - (* WaitOk: wait() returned - the plan has completed; the backup may go now *)
+    destruct (ph s p) eqn:P; try discriminate. destruct (forallb (fun j : Z => memz j linked) sub) eqn:F; try discriminate. inv_some HS.
+    assert (HO : is_out (ph s p) = false) by (rewrite P; reflexivity).
+    destruct (holder_isL _ _ _ HI HO) as (L & HQ & HP). rewrite P in HP. simpl in HP.
+    pose proof HP as ((S1 & S2) & HLs & (J1 & J2) & HC).
+    assert (SL : incl sub linked).
+    { intros x Hx. rewrite forallb_forall in F. apply memz_iff. apply F. exact Hx. }
+    assert (HCJ : incl (fst (ghostw tr)) (names (jobs s))) by (intros x Hx; auto).
+    unfold InvL; simpl. unfold bakl; simpl. fold (bakl s). rewrite keptw_snoc, ghostw_snoc; simpl. rewrite L, subs_snoc; simpl.
+    repeat split; auto.
+    + apply incl_app_l. exact HCJ.
+    + intros q N. rewrite upd_neq by exact N. auto.
+    + rewrite upd_eq. simpl. repeat split; auto.
+  - (* MkJobDir *)
+    inv_some HS. unfold InvL; simpl. unfold bakl; simpl. fold (bakl s). rewrite keptw_snoc, ghostw_snoc; simpl. fold (kept_w tr).
+    repeat split; auto. destruct (lock s); auto. rewrite subs_snoc; simpl. auto.
+  - (* RmJobDir *)
+    inv_some HS. unfold InvL; simpl. unfold bakl; simpl. fold (bakl s). rewrite keptw_snoc, ghostw_snoc; simpl. fold (kept_w tr).
+    repeat split; auto. destruct (lock s); auto. rewrite subs_snoc; simpl. auto.
+Qed.
+
+Lemma run_invL tr : forall s, run_late init tr = Some s -> InvL tr s.
+Proof.
+  induction tr as [|e tr IH] using rev_ind; intros s H.
+  - unfold run_late in H; simpl in H. inv_some H. apply invl_init.
+  - rewrite runl_snoc in H. destruct (run_late init tr) as [s0|] eqn:R; simpl in H; [|discriminate].
+    eapply step_late_inv; [apply IH; reflexivity | exact H].
+Qed.
+
+(* with the repaired order, after ANY history - kills anywhere, including anywhere inside __exit__,
+   wait() raising, exceptions of any class - the links made by the last run whose wait() returned and
+   every link made since are still in jobs/ or jobs.bak/ ...                                       *)
+Theorem late_backup_keeps : forall tr s, run_late init tr = Some s ->
+  incl (kept_w tr) (names (jobs s) ++ names (bakl s)).
+Proof. intros tr s H. apply run_invL in H. apply H. Qed.
+
+(* ... and are never reported by the orphans command *)
+Theorem late_never_orphan : forall tr s j, run_late init tr = Some s -> In j (kept_w tr) -> ~ In j (orphans s).
+Proof.
+  intros tr s j H Hj Ho. pose proof (run_invL _ _ H) as (HT & HK & _).
+  unfold orphans in Ho. apply filter_In in Ho. destruct Ho as [Hd Hn].
+  apply negb_true_iff in Hn. unfold live_name in Hn.
+  specialize (HK j Hj). rewrite <- names_app in HK. unfold names in HK. apply in_map_iff in HK.
+  destruct HK as [l [El Hl]].
+  pose proof (existsb_false_forall _ _ Hn l Hl) as E. cbv beta in E.
+  pose proof (HT l Hl) as T. destruct l as [a b]. simpl in *. unfold dir_of in T. subst a b.
+  rewrite Z.eqb_refl in E. simpl in E. apply memz_iff in Hd. congruence.
+Qed.
+
+(* the first clause of the property is unchanged by the repair *)
+Theorem late_completed_exact : forall tr p s,
+  run_late init (tr ++ [Done p]) = Some s ->
+  same_set (names (jobs s)) (subs_of p (tr ++ [Done p])) /\ NoDup (names (jobs s)) /\
+  (forall l, In l (jobs s) -> snd l = dir_of (fst l)) /\
+  bak s = None /\ lock s = None.
+Proof.
+  intros tr p s H. rewrite runl_snoc in H. destruct (run_late init tr) as [s0|] eqn:R; simpl in H; [|discriminate].
+  pose proof (run_invL _ _ R) as HI. pose proof HI as (HT & HK & HN1 & HN2 & HL).
+  destruct (ph s0 p) eqn:P; try discriminate.
+  assert (HO : is_out (ph s0 p) = false) by (rewrite P; reflexivity).
+  destruct (holder_isL _ _ _ HI HO) as (L & HQ & HP). rewrite P in HP. simpl in HP.
+  destruct HP as (((S1 & S2) & HLs & (J1 & J2) & HC) & HKJ & SL & HB).
+  injection H as <-. simpl. rewrite subs_snoc. simpl.
+  repeat split; auto.
+  - intros x Hx. apply S2, HLs, J1, Hx.
+  - intros x Hx. apply J2, SL, S1, Hx.
+  - intros l Hl. apply HT. apply in_or_app. auto.
+  - rewrite L. apply release_self.
+Qed.
+
+Theorem late_exclusive : forall tr s p q, run_late init tr = Some s ->
+  is_out (ph s p) = false -> is_out (ph s q) = false -> p = q.
+Proof.
+  intros tr s p q H Hp Hq. apply run_invL in H.
+  destruct (holder_isL _ _ _ H Hp) as (L1 & _). destruct (holder_isL _ _ _ H Hq) as (L2 & _). congruence.
+Qed.
+
+(* only the rmtree that follows a successful wait() ever forgets a link *)
+Theorem late_only_completed_exit_forgets : forall s e s', step_late s e = Some s' ->
+  (forall p n, e <> RmEntry p n) ->
+  incl (names (jobs s) ++ names (bakl s)) (names (jobs s') ++ names (bakl s')).
+Proof.
+  intros s e s' HS HE.
+  destruct e as [p|p|p n|p|p j|p j|p|p n|p|p|p c|p|p|p|j|j];
+    try (exact (only_ok_exit_forgets s _ s' HS HE)); simpl in HS.
+  - destruct (ph s p); try discriminate. inv_some HS. apply incl_refl.
+  - destruct (ph s p); try discriminate. destruct (bak s) as [[|x b]|] eqn:B; try discriminate; inv_some HS;
+      unfold bakl; simpl; rewrite B; apply incl_refl.
+  - destruct (ph s p); try discriminate. inv_some HS. apply incl_refl.
+  - destruct (ph s p); try discriminate. destruct (forallb (fun j : Z => memz j linked) sub); try discriminate.
+    inv_some HS. apply incl_refl.
+Qed.
+
+(* the history of (8) in the repaired order: the process can only be killed (or wait() can only fail)
+   with the backup intact; 1 and 2 are kept, nothing is an orphan *)
+Definition tr_late_prefix : list event :=
+  [ MkJobDir 1; MkJobDir 2;
+    Lock 0%nat; MkBak 0%nat; Ready 0%nat; Submit 0%nat 1; Link 0%nat 1; EndOk 0%nat; WaitOk 0%nat; RmBakDir 0%nat; Done 0%nat;
+    Lock 1%nat; MkBak 1%nat; Move 1%nat 1; Ready 1%nat; Submit 1%nat 2; Link 1%nat 2; EndOk 1%nat ].
+Definition tr_killed_waiting_late : list event := tr_late_prefix ++ [Kill 1%nat].
+
+Example ex_late_killed_waiting : exists s, run_late init tr_killed_waiting_late = Some s /\
+  kept_w tr_killed_waiting_late = [2; 1] /\ names (jobs s) = [2] /\ bak s = Some [(1, 1)] /\ orphans s = [] /\ lock s = None.
+Proof. eexists. split; [vm_compute; reflexivity|]. vm_compute. repeat split. Qed.
+
+Example ex_late_wait_fails : exists s, run_late init (tr_late_prefix ++ [WaitFail 1%nat]) = Some s /\
+  bak s = Some [(1, 1)] /\ orphans s = [] /\ lock s = None.
+Proof. eexists. split; [vm_compute; reflexivity|]. vm_compute. repeat split. Qed.
+
+(* ... and a run in the repaired order killed in the middle of the rmtree that follows wait(): its plan {2}
+   has completed, 1 is no longer to be kept; then the same run going to the end *)
+Example ex_late_completed : exists s s',
+  run_late init (tr_late_prefix ++ [WaitOk 1%nat; RmEntry 1%nat 1; Kill 1%nat]) = Some s /\
+  kept_w (tr_late_prefix ++ [WaitOk 1%nat; RmEntry 1%nat 1; Kill 1%nat]) = [2] /\ bak s = Some [] /\
+  run_late init (tr_late_prefix ++ [WaitOk 1%nat; RmEntry 1%nat 1; RmBakDir 1%nat; Done 1%nat]) = Some s' /\
+  names (jobs s') = [2] /\ bak s' = None /\ orphans s' = [1].
+Proof.
+  eexists. eexists. split; [vm_compute; reflexivity|]. split; [vm_compute; reflexivity|].
+  split; [vm_compute; reflexivity|]. split; [vm_compute; reflexivity|]. vm_compute. repeat split.
+Qed.
 
 (* ------------------------------------------------------------------ the lock file behind `lock` *)
 Lemma updh_eq {A} (f : nat -> option A) k v : updh f k v k = v.
